@@ -5,6 +5,7 @@ import (
 	"go/ast"
 	"go/constant"
 	"go/types"
+	"golang.org/x/tools/go/cfg"
 	"os"
 	"strings"
 	"time"
@@ -12,16 +13,17 @@ import (
 
 // Engine caches per-function flows and interprocedural summaries.
 type Engine struct {
-	m      *Model
-	ef     *effects
-	flows  map[*FuncUnit]*Flow
-	rb     map[string][]retBound
-	rbBusy map[string]bool
-	taint  map[*types.Var]bool
-	rf     map[*types.Func][]bool
-	rfBusy map[*types.Func]bool
-	wt     map[*types.Func]map[int]bool
-	pin    map[*types.Func]int
+	m        *Model
+	ef       *effects
+	flows    map[*FuncUnit]*Flow
+	rb       map[string][]retBound
+	rbBusy   map[string]bool
+	taint    map[*types.Var]bool
+	rf       map[*types.Func][]bool
+	rfBusy   map[*types.Func]bool
+	wt       map[*types.Func]map[int]bool
+	pin      map[*types.Func]int
+	flowBusy map[*FuncUnit]bool
 }
 
 func newEngine(m *Model) *Engine {
@@ -34,7 +36,53 @@ func (e *Engine) flow(u *FuncUnit) *Flow {
 		return f
 	}
 	t0 := time.Now()
-	f := newFlowP(e, u, nil)
+	// a closure starts with what its creator knew about the variables it captures, as far as
+	// those can never change (captured variables that are assigned nowhere, facts that read no
+	// memory through a pointer): `if root.pointer == nil { return none }` in front of the literal
+	var entry func(fl *Flow) []*Fact
+	if u.Lit != nil && u.Parent != nil && !e.flowBusy[u.Parent] {
+		if e.flowBusy == nil {
+			e.flowBusy = map[*FuncUnit]bool{}
+		}
+		e.flowBusy[u] = true
+		pf := e.flow(u.Parent)
+		delete(e.flowBusy, u)
+		var at *FactSet
+		pf.walk(func(n ast.Node, fs *FactSet, stmt ast.Node, b *cfg.Block) {
+			if n == ast.Node(u.Lit) && at == nil {
+				at = fs
+			}
+		})
+		if at != nil {
+			defs := e.m.localDefs(u.Parent)
+			var keep []*Fact
+			for _, k := range sortedKeys(at.m) {
+				f := at.m[k]
+				if f.Kind == FAlias || f.Kind == FFresh || len(f.derefs) > 0 || f.opaque || len(f.objs) == 0 {
+					continue
+				}
+				stable := true
+				for v := range f.objs {
+					if v.Pos() >= u.Lit.Pos() && v.Pos() <= u.Lit.End() {
+						stable = false
+					}
+					if d := defs[v]; d != nil && (d.bad || d.nDefs > 1) {
+						stable = false
+					}
+					if assignedAnywhere(e.m.Info, u.Decl.Body, v) && (defs[v] == nil || defs[v].nDefs == 0) {
+						stable = false // a parameter that is reassigned somewhere
+					}
+				}
+				if stable {
+					keep = append(keep, f)
+				}
+			}
+			if len(keep) > 0 {
+				entry = func(fl *Flow) []*Fact { return keep }
+			}
+		}
+	}
+	f := newFlowP(e, u, entry)
 	if os.Getenv("ARTCHECK_DEBUG") != "" {
 		fmt.Fprintf(os.Stderr, "flow %-40s blocks=%d iters=%d ok=%v %v\n", u.Name, len(f.g.Blocks), f.iters, f.ok, time.Since(t0))
 	}
